@@ -1,6 +1,11 @@
 package main
 
-import "golang.org/x/tools/go/ssa"
+import (
+	"strconv"
+	"strings"
+
+	"golang.org/x/tools/go/ssa"
+)
 
 func indexByteTerm(s Str, c *Term, last bool) *Term {
 	r := BVConstI(64, -1)
@@ -26,6 +31,26 @@ func mapCase(s Str, lo, hi byte, delta int64) Str {
 }
 
 func initStrIntr() {
+	intrinsics["strconv.FormatFloat"] = func(in *Interp, fn *ssa.Function, a []Value) Value {
+		f := a[0].(Float)
+		if f.T != nil {
+			in.fail("strconv.FormatFloat of a symbolic float")
+		}
+		return concreteStr(strconv.FormatFloat(f.F, byte(concInt(a[1])), int(concInt(a[2])), int(concInt(a[3]))))
+	}
+	intrinsics["strings.Split"] = func(in *Interp, fn *ssa.Function, a []Value) Value {
+		s1, ok1 := a[0].(Str).Concrete()
+		s2, ok2 := a[1].(Str).Concrete()
+		if !ok1 || !ok2 {
+			in.fail("strings.Split of a symbolic string")
+		}
+		parts := strings.Split(s1, s2)
+		out := make([]Value, len(parts))
+		for i, p := range parts {
+			out[i] = concreteStr(p)
+		}
+		return Slice{A: out}
+	}
 	ib := func(in *Interp, fn *ssa.Function, a []Value) Value { return indexByteTerm(a[0].(Str), a[1].(*Term), false) }
 	intrinsics["strings.IndexByte"] = ib
 	intrinsics["internal/stringslite.IndexByte"] = ib
